@@ -23,7 +23,7 @@ PROPS = {
         'assumptions': [
             'read(2) contract for Read::read behind the EINTR retry loop (R7) and BufRead::read_until (bytes through the first delimiter, chunk independent)',
             'OsString::from_vec keeps the bytes (unix)',
-            'parse_delimiter / delimiter selection in normalize_options: see unit xopts',
+            'delimiter selection in normalize_options: see unit xopts; parse_delimiter (unit xdelim, body verbatim): an accepted -d operand denotes exactly the byte delim_of gives it (one ASCII character, \\a \\b \\f \\n \\r \\t \\v \\\\, \\xHH, \\0OOO), a rejected one none; the [1..] slices are at character boundaries and the [0] index is in bounds; assumed: str::strip_prefix(char), starts_with(char), u8::from_str_radix (optional +, digits of the radix, at most 255), the UTF-8 boundary theory of prelude/strtheory.rs (a one-byte character is ASCII)',
         ],
         'not_decided': ['the 4096-byte buffer edge and multi-byte characters need no special treatment: the proof is over bytes and arbitrary chunk sizes'],
     },
